@@ -14,14 +14,21 @@ RULE = ("Arbitrary well-formed coding graphs (as C01) and arbitrary arc subsets 
         "when the check disagrees) with zero detected errors; every returned list is sorted and duplicate-free and, "
         "with a check, every candidate reproduces it. Calls that hit the look-up budget are left to C10. "
         "Non-trivial: clean walk with a wrong check, or a non-walk with a check, or >= 2 candidates returned.")
-ASSUMPTIONS = ["strings are over A, C, G, T and at least one window long; graphs are arc subsets of the de Bruijn graph",
-               "the supplied check has length >= 1"]
+ASSUMPTIONS = ["an empty supplied check is reproduced by no strand (the check function is defined for n >= 1)",
+               "strings are over A, C, G, T and at least one window long; graphs are arc subsets of the de Bruijn graph",
+               "heap limit inf / 1e9 only for inputs with at most one edit, so candidate products stay enumerable"]
 
 
 @st.composite
 def cases(draw, tier):
     kmax = 3 if tier == "quick" else 4
-    if draw(st.booleans()):
+    if draw(st.sampled_from([False] * 24 + [True])):
+        # the observed lengths used in practice: vertex indices beyond 2^15
+        k = draw(st.sampled_from([6, 8, 8]))
+        rng = random.Random(draw(st.integers(0, 2 ** 32 - 1)))
+        graph = {"k": k, "rows": [rng.choice([15, 15, 7, 11, 13, 14, 5, 10]) for _ in range(4 ** k)]}
+        graph["start"] = rng.randrange(4 ** k)
+    elif draw(st.booleans()):
         graph = draw(gens.coding_graphs(1, kmax, weights={1: 2, 2: 4, 3: 4, 4: 2}))
     else:
         graph = draw(gens.arc_subsets(1, kmax, {1: 2, 2: 4, 3: 4, 4: 2}))
@@ -47,10 +54,11 @@ def cases(draw, tier):
     if len(text) < k:
         text = (text + walk + "ACGT" * k)[:k]
     return {"graph": graph, "walk": walk, "text": text,
-            "check_kind": draw(st.sampled_from(["none", "none", "of_text", "of_walk", "wrong"])),
+            "check_kind": draw(st.sampled_from(["none", "none", "of_text", "of_text", "of_walk", "wrong", "empty"])),
             "check_len": draw(st.integers(1, 6)), "indel": draw(st.booleans()),
             "heap": draw(st.sampled_from([1, 10, 1000, 1000, 10 ** 9 if kind in ("walk", "edit1", "spaced")
-                                          else 10 ** 5])), "salt": draw(st.integers(0, 2 ** 16))}
+                                          else 10 ** 5, "inf" if kind in ("walk", "edit1") else 1000])),
+            "salt": draw(st.integers(0, 2 ** 16))}
 
 
 def evaluate(case):
@@ -63,6 +71,8 @@ def evaluate(case):
     kind = case["check_kind"]
     if kind == "none":
         check = None
+    elif kind == "empty":
+        check = ""  # an empty check is reproduced by no strand (the check function is defined for n >= 1)
     elif kind == "of_text":
         check = o.ref_vt(text, n)
     elif kind == "of_walk":
@@ -73,12 +83,13 @@ def evaluate(case):
         pos = rng.randrange(n)
         check = right[:pos] + rng.choice([c for c in "ACGT" if c != right[pos]]) + right[pos + 1:]
     walk = o.is_walk(rows, k, start, text)
+    heap = float(case["heap"])
     labels = ["walk" if walk else "not_walk", "check:" + kind, "indel" if case["indel"] else "no_indel",
-              "heap=%g" % case["heap"], "k=%d" % k]
+              "heap=%g" % heap, "k=%d" % k]
     result, lookups, _ = repairing.run_repair(rows, k, start, text, check=check, has_indel=case["indel"],
-                                              heap_size=case["heap"])
+                                              heap_size=heap)
     what = "repair_dna(%r, k=%d, start=%d, check=%r, has_indel=%s, heap_size=%g)" \
-           % (text, k, start, check, case["indel"], case["heap"])
+           % (text, k, start, check, case["indel"], heap)
     if isinstance(result, str):
         return discard("did_not_return_within_budget", labels)
     if isinstance(result, Raised):
@@ -87,7 +98,7 @@ def evaluate(case):
         return bad("%s returned a malformed result %r" % (what, result), labels)
     candidates, statistics = result
     if walk:
-        matches = check is None or o.ref_vt(text, len(check)) == check
+        matches = check is None or (len(check) > 0 and o.ref_vt(text, len(check)) == check)
         want = [text] if matches else []
         if candidates != want:
             return bad("%s: the strand is already a walk, expected %r, got %r" % (what, want, candidates[:6]), labels)
@@ -101,8 +112,17 @@ def evaluate(case):
         return bad("%s: candidate list has duplicates: %r" % (what, candidates[:8]), labels)
     if check is not None:
         for cand in candidates:
-            if any(c not in o.NUC for c in cand) or o.ref_vt(cand, len(check)) != check:
+            if len(check) == 0 or any(c not in o.NUC for c in cand) or o.ref_vt(cand, len(check)) != check:
                 return bad("%s: candidate %r does not reproduce the supplied check %r" % (what, cand, check), labels)
+    if kind == "of_text" and walk:
+        # the same strand again with a longer (right) check: every call is judged on its own
+        longer = o.ref_vt(text, n + 3)
+        again, _, _ = repairing.run_repair(rows, k, start, text, check=longer, has_indel=case["indel"], heap_size=heap)
+        if isinstance(again, (str, Raised)) or not repairing.well_formed_result(again) or again[0] != [text]:
+            return bad("%s returned %r and then, for the same clean strand with its %d-symbol check %r, %r"
+                       % (what, candidates, n + 3, longer, again if isinstance(again, (str, Raised)) else again[0][:4]),
+                       labels)
+        labels.append("second_call_longer_check")
     if len(candidates) >= 2:
         labels.append("multi_candidates")
         if len({len(c) for c in candidates}) >= 2:
@@ -120,7 +140,8 @@ def evaluate(case):
 SUBCHECKS = [
     SubCheck("repair_contract", evaluate, strategy=cases, examples=(6000, 60000), shards=(16, 16),
              floors={"clean_wrong_check": 100, "fallback_with_check": 100, "multi_candidates": 200,
-                     "candidates_of_different_length": 60, "multi_site_product": 60, "walk": 800}, rule=RULE),
+                     "candidates_of_different_length": 60, "multi_site_product": 60, "walk": 800, "k=8": 40,
+                     "check:empty": 200, "second_call_longer_check": 200, "heap=inf": 100}, rule=RULE),
     SubCheck("fuzz_repair_contract", evaluate, fuzz=("C09", (4000, 250000)), shards=(2, 8),
              rule="atheris/libFuzzer campaign: bytes are decoded into (graph from a pool of 64 arc subsets, start "
                   "vertex, string, options) and judged by the same oracle as the Hypothesis sub-check; coverage "
